@@ -904,6 +904,7 @@ func c08Colons(c *Ctx, fn *ssa.Function) {
 func checkEffectiveProperty(c *Ctx, rule string, fn *ssa.Function, keyPkg, keyVar string) {
 	key := c.Global(keyPkg, keyVar)
 	n := 0
+	var readers []*ssa.Function
 	for _, f := range pkgReach(fn, 2) {
 		has := false
 		eachInstr(f, func(in ssa.Instruction) {
@@ -915,12 +916,52 @@ func checkEffectiveProperty(c *Ctx, rule string, fn *ssa.Function, keyPkg, keyVa
 		})
 		if has {
 			n++
-			checkEffectiveProperty1(c, rule, f, keyPkg, keyVar)
+			readers = append(readers, f)
 		}
 	}
 	if n == 0 {
-		checkEffectiveProperty1(c, rule, fn, keyPkg, keyVar)
+		checkEffectiveProperty1(c, rule, fn, keyPkg, keyVar, false)
+		return
 	}
+	// does any of them read the column-0 default?
+	anyDef := false
+	for _, f := range readers {
+		if readsColumnZero(f, key) {
+			anyDef = true
+		}
+	}
+	for _, f := range readers {
+		checkEffectiveProperty1(c, rule, f, keyPkg, keyVar, anyDef && !readsColumnZero(f, key))
+	}
+}
+
+// readsColumnZero: f reads the property `key` from Column(0).
+func readsColumnZero(f *ssa.Function, key *ssa.Global) bool {
+	found := false
+	eachInstr(f, func(in ssa.Instruction) {
+		call, ok := in.(*ssa.Call)
+		if !ok || len(call.Call.Args) == 0 {
+			return
+		}
+		if g := loadedGlobal(unwrap(call.Call.Args[len(call.Call.Args)-1], true)); g == nil || g != key {
+			return
+		}
+		var recv ssa.Value
+		if call.Call.IsInvoke() {
+			recv = call.Call.Value
+		} else {
+			recv = call.Call.Args[0]
+		}
+		if fa, isFA := recv.(*ssa.FieldAddr); isFA {
+			recv = fa.X
+		}
+		if cc, isCall := unwrap(recv, true).(*ssa.Call); isCall && len(cc.Call.Args) > 0 {
+			if k, isK := constInt(cc.Call.Args[len(cc.Call.Args)-1]); isK && k == 0 {
+				found = true
+			}
+		}
+	})
+	return found
 }
 
 // pkgReach: fn and the functions of fn's own package it calls statically, transitively up to depth.
@@ -946,7 +987,7 @@ func pkgReach(fn *ssa.Function, depth int) []*ssa.Function {
 	return out
 }
 
-func checkEffectiveProperty1(c *Ctx, rule string, fn *ssa.Function, keyPkg, keyVar string) {
+func checkEffectiveProperty1(c *Ctx, rule string, fn *ssa.Function, keyPkg, keyVar string, defElsewhere bool) {
 	r := c.R
 	key := c.Global(keyPkg, keyVar)
 	if key == nil {
@@ -1017,6 +1058,10 @@ func checkEffectiveProperty1(c *Ctx, rule string, fn *ssa.Function, keyPkg, keyV
 		return
 	}
 	if def == nil {
+		if defElsewhere {
+			r.Note(fmt.Sprintf("shape-unrecognised %s: %s reads the per-column %s while the column-0 default is read in another function and handed over; how the two are combined is not evaluated", rule, FuncName(fn), keyVar))
+			return
+		}
 		r.Check(rule, FuncName(fn), "per-column "+keyVar+" falls back to the column-0 default", own[0].Pos(), false, "the property is read from each column but never from column 0: a default set for all columns is ignored")
 		return
 	}
